@@ -370,6 +370,26 @@ pub fn frames_for(cookies: &HashMap<crate::model::FlowKey, u32>, thorough: bool)
         v.push(("long-v4-syn".into(), vec![], g.tcp(4294967295, 4294967295, F_SYN, b"")));
         v.push(("long-v4-stun".into(), vec![], g.udp(&stun_magic(&[], &ID12))));
     }
+    // address forms: the printed addresses are the frame's own, whatever their form (IPv4-mapped /
+    // IPv4-compatible IPv6, embedded denied IPv4 address, link-local, loopback, unspecified,
+    // multicast and broadcast sources)
+    {
+        let s6: Vec<Ip> = ["::ffff:10.0.0.9", "::ffff:10.66.6.6", "::10.0.0.9", "fe80::9", "::1", "::", "ff02::9", "2001:db8::a00:9", "64:ff9b::a00:9", "2002:a00:9::1"].iter().map(|a| Ip::parse(a)).collect();
+        let s4: Vec<Ip> = vec![Ip::V4([0, 0, 0, 0]), Ip::V4([127, 0, 0, 1]), Ip::V4([255, 255, 255, 255]), Ip::V4([224, 0, 0, 9]), Ip::V4([169, 254, 0, 9]), Ip::V4([10, 0, 0, 1])];
+        for (v6, srcs) in [(true, &s6), (false, &s4)] {
+            for (k, sa) in srcs.iter().enumerate() {
+                let mut f = flow(v6, 40000, 80);
+                f.cip = *sa;
+                v.push((format!("src-form-{}-{}-syn", v6, k), vec![], f.tcp(1, 0, F_SYN, b"")));
+                v.push((format!("src-form-{}-{}-echo", v6, k), vec![], f.icmp_echo(1, 1, b"x")));
+                v.push((format!("src-form-{}-{}-stun", v6, k), vec![], f.udp(&stun_magic(&[], &ID12))));
+                let mut g = flow(v6, 40000, 80);
+                g.sip = *sa;
+                v.push((format!("dst-form-{}-{}-syn", v6, k), vec![], g.tcp(1, 0, F_SYN, b"")));
+                v.push((format!("dst-form-{}-{}-echo", v6, k), vec![], g.icmp_echo(1, 1, b"x")));
+            }
+        }
+    }
     // replies of every size class: echo requests whose reply reaches and exceeds a 1500-byte MTU
     for n in [1400usize, 1471, 1472, 1473, 1480, 1500, 2000, 4000, 9000] {
         for v6 in [false, true] {
